@@ -1830,7 +1830,11 @@ def gen_C08(rng, tier):
         cs, _ = g(random.Random(rng.getrandbits(32)), sub_tier)
         if tier == "quick" and len(cs) > 2500:
             r2 = random.Random(rng.getrandbits(32))
-            cs = r2.sample(cs, 2500)
+            # the few cases of the big / sparse / history domains are always kept; the bulk is sampled
+            rare = ("bigwalk", "hbigwalk", "bigelf", "mbihuge", "hdrhuge", "findhuge", "iters", "hiters", "elfname")
+            keep = [c for c in cs if c.split(" ", 1)[0] in rare]
+            rest = [c for c in cs if c.split(" ", 1)[0] not in rare]
+            cs = keep[:1500] + r2.sample(rest, min(len(rest), max(0, 2500 - min(len(keep), 1500))))
         dist[name] = len(cs)
         cases += cs
     # the constructors of the sized tags exist in every feature configuration
